@@ -198,7 +198,7 @@ def arc_cases(draw):
 
 @st.composite
 def invalid_cases(draw):
-    kind = draw(st.sampled_from(["W_low", "E_high", "W_high", "E_low", "too_wide", "S_low", "N_high", "lon_high", "lon_low", "lat_high", "lat_low"]))
+    kind = draw(st.sampled_from(["W_low", "E_high", "W_high", "E_low", "too_wide", "too_wide_reversed", "S_low", "N_high", "lon_high", "lon_low", "lat_high", "lat_low"]))
     region = [draw(gen.finite(-180, 170)), 0.0, draw(gen.finite(-90, 0)), draw(gen.finite(0, 90))]
     region[1] = region[0] + draw(gen.finite(0, 10))
     lon, lat = [region[0]], [region[2]]
@@ -217,6 +217,12 @@ def invalid_cases(draw):
         if region[1] - region[0] <= 360:
             region[0] = -180.0
             region[1] = 360.0
+    elif kind == "too_wide_reversed":
+        # both bounds are legal longitudes but W lies more than a full turn east of E (e.g. [360, -10], [185, -180])
+        region[1] = -draw(gen.finite(0.5, 180))
+        region[0] = min(360.0, region[1] + 360 + draw(gen.finite(0.5, 100)))
+        if region[0] - region[1] <= 360:
+            region[0], region[1] = 360.0, -180.0
     elif kind == "S_low":
         region[2] = -90 - big
     elif kind == "N_high":
